@@ -33,6 +33,7 @@ fn main() {
         "C14" => props::c14::run(tier),
         "C15" => props::c15::run(tier),
         "C16" => props::c16::run(tier),
+        "C17" => props::c17::run(tier),
         "C20" => props::c20::run(tier),
         other => {
             eprintln!("unknown property {other}");
